@@ -301,6 +301,11 @@ class AssociationRequester(Association):
 
     def request(self):
         """Requests association with remote AET."""
+        if any(not 0 < pc_id < 256 for pc_id in self.context_def_list):
+            # presentation context ID is a single byte (odd values 1..255)
+            raise exceptions.AssociationError(
+                'Too many presentation contexts to propose: {0} (maximum is 128)'.format(
+                    len(self.context_def_list)))
         ext = [userdataitems.ScpScuRoleSelectionSubItem(uid, 0, 1)
                for uid in self.ae.supported_scp.keys()]
         custom_items = self.remote_ae.get('user_data', [])
